@@ -15,7 +15,7 @@ CLAIMED = {
          "go/ssa model; govaluate semantics and role data trusted; helper postconditions computed from the helpers' own bodies",
          "DESIGN.md section 5 C15"),
  "C01": ("per-loop order-effect classification of every map range / sync.Map.Range in the block-execution packages (SSA: accumulations, keyed vs. unkeyed writes, early exits carrying entry data, call write-summaries), sort-before-use path rule, forward slice of clock values, goroutine write-shape rule, cache guard-edge rules",
-         "Decides clauses R01.1-R01.4: no map-iteration order reaches a later use (every loop body is order-insensitive, or what it accumulates is sorted before any other use, or it is a frozen argued exception); wall-clock / random values flow only into durations, logging and metrics (one frozen exception: genesis Timestamp, not hashed); goroutines of block execution write only map[ownIndex] under the mutex; the service cache is filled only for successful transactions and reset after a ledger rollback. That execution is otherwise a function of (genesis, blocks) - dependencies, restart placement - is not decided.",
+         "Decides clauses R01.1-R01.5: no map-iteration order reaches a later use (every loop body is order-insensitive, or what it accumulates is sorted before any other use, or it is a frozen argued exception); wall-clock / random values flow only into durations, logging and metrics (one frozen exception: genesis Timestamp, not hashed); goroutines of block execution write only map[ownIndex] under the mutex; the service cache is filled only for successful transactions and reset after a ledger rollback; the region executed only when EnableAudit() is true posts AUDIT_* events only. That execution is otherwise a function of (genesis, blocks) - dependencies, restart placement - is not decided.",
          "go/ssa model; sort, encoding/json (sorted map keys) semantics trusted",
          "DESIGN.md section 5 C01"),
  "C02": ("SSA must-pass-through of the index gate, finite-ordering evaluation of checkIndex, who-may-write analysis of the counter maps, argument-coherence rule",
@@ -23,7 +23,7 @@ CLAIMED = {
          "go/ssa model; TransactionManager/Service contracts behave as their own checks say; unordered (batch) services are outside the property's 'ordered pair'",
          "DESIGN.md section 5 C02"),
  "C03": ("SSA dominance/must-pass-through rules on the proof pipeline, contradiction rule on the CheckProof result contract, BVM entry reachability",
-         "Decides clauses R03.1-R03.6: proofs are verified before transactions are applied, the only ways out of verifyProofs before the join are the three enumerated ones, CheckProof runs for every loop element; a rejecting CheckProof return always carries a non-nil error (consumer dereferences it); an invalid reason short-circuits every VM entry; the rule engine / multi-sign check run only after sha256(proof)==ibtp.Proof with the address from getValidateAddress, which selects only an available rule; the validator counter is incremented only for set members that are removed, success only above (n-1)/3; no unguarded dispatchable entry reaches HandleIBTP. Not the correctness of a rule's verdict.",
+         "Decides clauses R03.1-R03.7: proofs are verified before transactions are applied, the only ways out of verifyProofs before the join are the three enumerated ones, CheckProof runs for every loop element; a rejecting CheckProof return always carries a non-nil error (consumer dereferences it); an invalid reason short-circuits every VM entry; the rule engine / multi-sign check run only after sha256(proof)==ibtp.Proof with the address from getValidateAddress, which selects only an available rule; the validator counter is incremented only for set members that are removed, success only above (n-1)/3; no unguarded dispatchable entry reaches HandleIBTP; with a per-group length of len(txs)/groupNum some verification group's slice ends at the end of the block. Not the correctness of a rule's verdict.",
          "go/ssa model; validator engine, ecdsa recovery and pinned dependencies trusted; group partition arithmetic not covered",
          "DESIGN.md section 5 C03"),
  "C07": ("SSA must-follow (revert on every failing path, lifted to callers), journaling model of internal/ledger derived from its own code, CHA boundary-call analysis, receipt-success edge reachability",
@@ -35,11 +35,11 @@ CLAIMED = {
          "go/ast + go/types constant evaluation (protobuf names read from the generated _name table); looplab/fsm engine trusted",
          "DESIGN.md section 5 C04"),
  "C05": ("SSA success-edge and loop rules on the one-to-many bookkeeping; range-element vs fixed-index rule",
-         "Decides clauses R05.1-R05.3: the global state reaches the FSM only across isMultiTxFinished()==true, which is true only as count == ChildTxCount with every child compared; no code stores SUCCESS into a GlobalState directly; every failure branch flips every child unconditionally in its loop, sets the global state and (contracts) removes the group from the timeout list; a joining child is BEGIN only while the group is BEGIN; each rolled-back child is filed under a chain derived from its own id. Not the destinations' behaviour.",
+         "Decides clauses R05.1-R05.4: the global state reaches the FSM only across isMultiTxFinished()==true, which is true only as count == ChildTxCount with every child compared; no code stores SUCCESS into a GlobalState directly; every failure branch flips every child unconditionally in its loop, sets the global state and (contracts) removes the group from the timeout list; a joining child is BEGIN only while the group is BEGIN; each rolled-back child is filed under a chain derived from its own id; a group leaves the timeout list only after its global state changed. Not the destinations' behaviour.",
          "go/ssa model (range loops recognised by SSA block structure)",
          "DESIGN.md section 5 C05"),
  "C06": ("SSA dataflow/ordering rules on the executor's timeout bookkeeping",
-         "Decides clauses R06.1-R06.7: register/expire/rollback use the same block height and register at height+TimeoutHeight; registration lies behind the request/group/invalid/begin-failed/positive/overflow guards; every decoded receipt record reaches the removal update; all ledger writes of post-processing precede FlushDirtyData; expiry reads the list of its own height and no in-memory executor state; separators are emitted only after a non-empty list; accumulators extend the element they looked up. Numeric adequacy of the overflow guard is not decided.",
+         "Decides clauses R06.1-R06.8: register/expire/rollback use the same block height and register at height+TimeoutHeight; registration lies behind the request/group/invalid/begin-failed/positive/overflow guards; every decoded receipt record reaches the removal update; all ledger writes of post-processing precede FlushDirtyData; expiry reads the list of its own height and no in-memory executor state; separators are emitted only after a non-empty list; accumulators extend the element they looked up; removal only by a receipt that is neither invalid nor begin-failed, and timeout-list entries of the transaction manager are added / removed under the group record's id and height. Numeric adequacy of the overflow guard is not decided.",
          "go/ssa model; list encoding convention of getTimeoutList (first element empty = no list) read from the code",
          "DESIGN.md section 5 C06"),
  "C14": ("credit/debit pairing over SSA values (lifted through parameters to call sites), dominance of sufficiency comparisons, stale-read (alias) ordering rule",
@@ -55,11 +55,11 @@ CLAIMED = {
          "go/ssa model; wasmtime fuel, EVM gas trusted",
          "DESIGN.md section 5 C08"),
  "C09": ("key-prefix table agreement (written / deleted / read) over CHA-reachable storage calls, hash-last and parent-link ordering rules, normalised height expressions",
-         "Decides clauses R09.1-R09.5: every index key prefix written per block is deleted (or rewritten) on rollback and every prefix read is written; every header field covered by BlockHeader.Hash (field set read from the pinned model source) is assigned before BlockHash = Hash() of the same block; ParentHash comes from currentBlockHash, which is advanced only after persisting, at construction, and in rollbackBlocks from the block at the rollback target; roots are computed over the executed transaction slice and the stored receipt slice, receipts frozen afterwards; persist and rollback count interchain txs the same way. Not blockfile internals.",
+         "Decides clauses R09.1-R09.6: every index key prefix written per block is deleted (or rewritten) on rollback and every prefix read is written; every header field covered by BlockHeader.Hash (field set read from the pinned model source) is assigned before BlockHash = Hash() of the same block; ParentHash comes from currentBlockHash, which is advanced only after persisting, at construction, and in rollbackBlocks from the block at the rollback target; roots are computed over the executed transaction slice and the stored receipt slice, receipts frozen afterwards; persist and rollback count interchain txs the same way; values copied from the old chain meta into the persisted one are read after their last update. Not blockfile internals.",
          "go/ssa + CHA restricted to module types; bitxhub-kit storage/blockfile trusted",
          "DESIGN.md section 5 C09"),
  "C10": ("append-chain/loop analysis of hash inputs (sorted-slice rule), predicate agreement, injectivity of the preimage encoding, aliasing rule for big.Int values",
-         "Decides clauses R10.1-R10.4: each sha256 input is assembled by appends inside loops over slices sorted before the loop (never inside a map range or callback), leaves are element hashes in slice order; the state hash covers key and value, the account preimage covers address, account record and state hash, and hash/journal/commit select keys with the same changed-value predicate; the preimage encoding is checked for delimiters (known finding: key||value); no in-place arithmetic on balance objects obtained from getters. Not collision resistance.",
+         "Decides clauses R10.1-R10.5: each sha256 input is assembled by appends inside loops over slices sorted before the loop (never inside a map range or callback), leaves are element hashes in slice order; the state hash covers key and value, the account preimage covers address, account record and state hash, and hash/journal/commit select keys with the same changed-value predicate; the preimage encoding is checked for delimiters (known finding: key||value); no in-place arithmetic on balance objects obtained from getters; every batch write of Commit uses a constructed key and each data kind is both written and deleted under its constructor. Not collision resistance.",
          "go/ssa model; sha256/merkletree trusted",
          "DESIGN.md section 5 C10"),
  "C11": ("happens-before rule over the durable writes of one block commit (program order, go closures unordered, WaitGroup joins), single-atomic-batch rule for the state store, must-pass-through rules on the three constructors, error-discipline rule for persistence calls",
@@ -67,7 +67,7 @@ CLAIMED = {
          "go/ssa model; leveldb batch atomicity and blockfile repair() trusted",
          "DESIGN.md section 5 C11"),
  "C12": ("SSA ordering rules on the rollback functions, storage-kind table agreement between Commit and revertJournal, struct-field completeness of the cache purge",
-         "Decides clauses R12.1-R12.4: refusal returns are not reachable after any mutation; the chain rollback runs only after a successful state rollback; caches are cleared before any journal revert and clear() purges every lru layer; the kinds Commit writes are the kinds revertJournal restores (put and delete), journal record/max marker/data share one batch, each reverted height deletes its record and lowers the marker in the batch carrying the reverted data, captured journal fields = restored fields; prevJnlHash (from the target height's journal) and maxJnlHeight are stored on every successful path. Not value-level equality.",
+         "Decides clauses R12.1-R12.5: refusal returns are not reachable after any mutation; the chain rollback runs only after a successful state rollback; caches are cleared before any journal revert and clear() purges every lru layer; the kinds Commit writes are the kinds revertJournal restores (put and delete), journal record/max marker/data share one batch, each reverted height deletes its record and lowers the marker in the batch carrying the reverted data, captured journal fields = restored fields; prevJnlHash (from the target height's journal) and maxJnlHeight are stored on every successful path; account / code records are restored only behind the entry's AccountChanged / CodeChanged flag. Not value-level equality.",
          "go/ssa model (defer-spilled results resolved); leveldb batch atomicity trusted",
          "DESIGN.md section 5 C12"),
  "C13": ("lookup-order must-pass-through, undo-log discipline derived from the ledger's own writers, key-space tagging of the Query merge map, cache fill/purge and snapshot structure rules",
